@@ -764,8 +764,14 @@ func c10MPCKKS(ctx *core.RunCtx, g *core.Xoshiro) *c10World {
 
 // --- rgsw ---------------------------------------------------------------------------------------------------
 
+// rgswEnc is what the scenario needs of an rgsw encryptor; the key-rebinding constructors of
+// rgsw.Encryptor are promoted from the embedded rlwe.Encryptor and return that type.
+type rgswEnc interface {
+	Encrypt(pt *rlwe.Plaintext, ct interface{}) error
+}
+
 type c10RGSWObj struct {
-	enc *rgsw.Encryptor
+	enc rgswEnc
 	ev  *rgsw.Evaluator
 }
 
@@ -786,9 +792,28 @@ func c10RGSW(ctx *core.RunCtx, g *core.Xoshiro) *c10World {
 	mk := func() any { return &c10RGSWObj{rgsw.NewEncryptor(params, cc.sk), rgsw.NewEvaluator(params, cc.evk)} }
 	o := func(x any) *c10RGSWObj { return x.(*c10RGSWObj) }
 	w := &c10World{name: "rgsw", orig: mk(), fresh: mk}
+	shallow := func(e rgswEnc) rgswEnc {
+		switch t := e.(type) {
+		case *rgsw.Encryptor:
+			return t.ShallowCopy()
+		case *rlwe.Encryptor:
+			return t.ShallowCopy()
+		}
+		return e
+	}
 	w.copiers = []c10Copier{
-		{"ShallowCopy", true, func(x any) any { return &c10RGSWObj{o(x).enc.ShallowCopy(), o(x).ev.ShallowCopy()} }},
-		{"WithKey(same)", false, func(x any) any { return &c10RGSWObj{o(x).enc.ShallowCopy(), o(x).ev.WithKey(cc.evk.ShallowCopy())} }},
+		{"ShallowCopy", true, func(x any) any { return &c10RGSWObj{shallow(o(x).enc), o(x).ev.ShallowCopy()} }},
+		{"WithKey(same)", false, func(x any) any { return &c10RGSWObj{shallow(o(x).enc), o(x).ev.WithKey(cc.evk.ShallowCopy())} }},
+		{"Encryptor.WithKey(same)", false, func(x any) any {
+			// rebinding the encryption key of the rgsw encryptor (to the key it already has)
+			switch t := o(x).enc.(type) {
+			case *rgsw.Encryptor:
+				return &c10RGSWObj{t.WithKey(cc.sk), o(x).ev}
+			case *rlwe.Encryptor:
+				return &c10RGSWObj{t.WithKey(cc.sk), o(x).ev}
+			}
+			return x
+		}},
 	}
 	w.steps = []c10Step{
 		{"ExternalProduct", false, func(x any) (uint64, error) {
@@ -820,6 +845,12 @@ type c10BtpCtx struct {
 
 func c10Bootstrapping(ctx *core.RunCtx, g *core.Xoshiro) *c10World {
 	variant := ctx.Ch.Draw("btp-variant", 2) // 0: same ring degree, 1: residual ring of half the degree (packing)
+	cc := c10BtpContext(ctx, variant)
+	return c10BootstrappingWorld(ctx, cc)
+}
+
+// c10BtpContext returns the worker's cached bootstrapping context (parameters, keys, evaluator, inputs).
+func c10BtpContext(ctx *core.RunCtx, variant int) *c10BtpCtx {
 	c := ctx.Cached(fmt.Sprintf("c10/bootstrapping/%d", variant), func(*core.Xoshiro) any {
 		lit := ckks.ParametersLiteral{LogN: 10, LogQ: []int{60, 40}, LogP: []int{61}, LogDefaultScale: 40}
 		btpLit := bootstrapping.ParametersLiteral{}
@@ -878,6 +909,10 @@ func c10Bootstrapping(ctx *core.RunCtx, g *core.Xoshiro) *c10World {
 	if !ok {
 		ctx.Harness("bootstrapping context: %v", c)
 	}
+	return cc
+}
+
+func c10BootstrappingWorld(ctx *core.RunCtx, cc *c10BtpCtx) *c10World {
 	ev := func(x any) *bootstrapping.Evaluator { return x.(*bootstrapping.Evaluator) }
 	params := cc.params.Parameters
 	w := &c10World{name: "bootstrapping.Evaluator", orig: cc.eval}
